@@ -125,6 +125,7 @@ func c15(c *Ctx) {
 		c15P7(c, fn, counts)
 		c15P11(c, fn, counts)
 	}
+	c15P3Premise(c)
 	for _, r := range []struct {
 		rule string
 		min  int
@@ -347,6 +348,60 @@ func rootIdent(x ast.Expr) *ast.Ident {
 			return nil
 		}
 	}
+}
+
+// c15P3Premise: the two single-value assertions of storeRuntimeConfig are excepted because they read what
+// mergeConfigList has just written and mergeConfigList rejects a value of another type — that premise is
+// checked, not assumed: in mergeConfigList the comma-ok assertion on network_policy_provider is followed
+// by `if !ok { return …, <error> }`.
+func c15P3Premise(c *Ctx) {
+	p := c.P
+	fn := p.Func("cmd/terway-cli", "mergeConfigList")
+	key := "mergeConfigList rejects a network_policy_provider that is not a string (premise of the storeRuntimeConfig exception)"
+	if fn == nil {
+		c.Unres("C15.P3", "cmd/terway-cli.mergeConfigList", "not found")
+		return
+	}
+	info := fn.Info()
+	sig := fn.Obj.Type().(*types.Signature)
+	found, okReject := false, false
+	var at ast.Node = fn.Decl
+	ast.Inspect(fn.Decl.Body, func(nd ast.Node) bool {
+		var list []ast.Stmt
+		switch b := nd.(type) {
+		case *ast.BlockStmt:
+			list = b.List
+		case *ast.CaseClause:
+			list = b.Body
+		}
+		for i, st := range list {
+			as, ok := st.(*ast.AssignStmt)
+			if !ok || len(as.Lhs) != 2 || len(as.Rhs) != 1 {
+				continue
+			}
+			ta, ok := ast.Unparen(as.Rhs[0]).(*ast.TypeAssertExpr)
+			if !ok || !strings.Contains(exprStringFolded(info, ta), `Path("network_policy_provider")`) {
+				continue
+			}
+			found, at = true, as
+			okObj := identObj(info, as.Lhs[1])
+			if i+1 < len(list) {
+				if is, ok := list[i+1].(*ast.IfStmt); ok && is.Init == nil && len(is.Body.List) > 0 {
+					if ue, ok := ast.Unparen(is.Cond).(*ast.UnaryExpr); ok && ue.Op == token.NOT && okObj != nil && identObj(info, ue.X) == okObj {
+						if r, ok := is.Body.List[len(is.Body.List)-1].(*ast.ReturnStmt); ok && guardedFailure(fn, sig, r) {
+							okReject = true
+						}
+					}
+				}
+			}
+		}
+		return true
+	})
+	if !found {
+		c.Undec("C15.P3", key, p.Pos(fn.Decl), fn.Key(), `v, ok := plugin.Path("network_policy_provider").Data().(string); if !ok { return "", err }`, "the comma-ok assertion was not found")
+		return
+	}
+	c.Check(okReject, "C15.P3", key, p.Pos(at), fn.Key(), `if !ok { return "", <error> }`, "a value of another type is tolerated here and copied into the file storeRuntimeConfig reads with a single-value assertion")
 }
 
 func c15P3(c *Ctx, fn *FuncInfo, counts map[string]int) {
